@@ -102,7 +102,7 @@ ImplStep(impl, st, act, fact) ==      \* [st, ev]
                kf == IF named # 0 THEN named ELSE st.key
                pf == IF named # 0 THEN named ELSE st.point
                ok == zf # 0 /\ kf # 0 /\ fact[pf][zf]
-               keep == impl # "sticks" /\ ~ok
+               keep == impl \in {"restores", "stale"} /\ ~ok
            IN [st |-> [key |-> IF keep THEN st.key ELSE kf, z |-> zf,
                        point |-> IF impl = "restores" /\ ~ok THEN st.point ELSE pf],
                ev |-> [ev0 EXCEPT !.obs = IF ok THEN "accept" ELSE "reject"]]
